@@ -24,8 +24,10 @@ class Expression:
 
     def compile(self, out, flags):
         if not out.has_available_blocks(self.num_blocks):
+            # The helper function suspends whenever this expression calls a
+            # rule, so it has to be a generator that we delegate to.
             func, params = self.functionalize(out, flags, is_generator=False)
-            out += (STATUS, RESULT, POS) << func(*params)
+            out += (STATUS, RESULT, POS) << Code('(yield from ', func(*params), ')')
             return
 
         if self.is_tagged:
@@ -67,6 +69,11 @@ class Expression:
 
         with out.global_section():
             with out.DEF(name, params):
+                if not is_generator:
+                    # The caller uses `yield from`. Make sure that this is a
+                    # generator function, even if the body never yields.
+                    out += Code('yield from ()')
+
                 self.compile(out, flags)
                 method = out.YIELD if is_generator else out.RETURN
                 method((STATUS, RESULT, POS))
